@@ -107,16 +107,24 @@ def consumer_sorted(p, f, g, container, after_node):
     for n in walk_no_nested(f.node):
         if isinstance(n, ast.Call) and isinstance(n.func, ast.Attribute) and n.func.attr == "sort" and norm(n.func.value) == container:
             sorts.append(n)
-    if not sorts:
-        return False, "no sort of " + container
     sort_nodes = [g.node_for(s) for s in sorts]
+    n_sorted_uses = 0
     for u in uses_of(f, container):
         pu = parent(u)
         if isinstance(pu, ast.Attribute) and pu.attr in ("append", "sort", "extend"):
             continue
+        if isinstance(pu, ast.Call) and norm(pu.func) == "sorted" and pu.args and pu.args[0] is u:
+            n_sorted_uses += 1
+            continue  # consumed through sorted(container, ...)
+        if isinstance(pu, ast.Call) and norm(pu.func) in ("len", "set", "frozenset", "bool"):
+            continue
+        if not sort_nodes:
+            return False, f"use `{norm(enclosing(u))[:60]}` of {container} without a sort"
         un = g.node_for(u)
         if not any(g.dominates(sn, un) for sn in sort_nodes):
             return False, f"use `{norm(enclosing(u))[:60]}` not dominated by {container}.sort()"
+    if not sort_nodes and n_sorted_uses == 0:
+        return False, "no sort of " + container
     return True, ""
 
 
